@@ -4,8 +4,15 @@ from __future__ import annotations
 from collections import defaultdict, deque
 
 
-def split_init(lines):
-    """Initial states = ST lines printed before the first TR line (single worker BFS)."""
+def split_init(lines, first_only=False):
+    """Initial states = ST lines printed before the first TR line (single worker BFS).
+    first_only: the spec has a single initial state (needed for -simulate exports, where the first
+    successor's ST line is printed before the first TR line)."""
+    if first_only:
+        for tag, nums, _ in lines:
+            if tag == "ST":
+                return [(nums[0], nums[1])]
+        return []
     init = []
     for tag, nums, _ in lines:
         if tag == "TR":
